@@ -259,7 +259,7 @@ def needs_swap(M):
     return spec_pivot(M)[2] > 0
 
 
-def gen_matrix(rng, n, want, pivoted, tries=60):
+def gen_matrix(rng, n, want, pivoted, tries=60, allow_scale=False):
     """want in {'plain','swap','noswap','sdd','colloc','zero','singular'}; pivoted: the routine pre-pivots.
     Returns (M, info) with info['lu'] in {'ok','zero'} describing the matrix the LU actually sees."""
     for _ in range(tries):
@@ -303,7 +303,13 @@ def gen_matrix(rng, n, want, pivoted, tries=60):
             continue
         if want == "zero" and (d == 0 or cls != "zero"):
             continue
-        return M, {"want": want, "kind": kind, "lu": cls, "swap": sw, "singular": d == 0}
+        info = {"want": want, "kind": kind, "lu": cls, "swap": sw, "singular": d == 0}
+        if allow_scale and want in ("plain", "sdd", "noswap", "swap") and rng.random() < 0.15:
+            # uniformly scaled copies (exact powers of two: same pivots, same classes): tiny / huge but perfectly valid pivots
+            sc = rng.choice([2.0 ** -30, 2.0 ** -34, 2.0 ** 20])
+            M = [[float(x) * sc for x in row] for row in M]
+            info["scale"] = sc
+        return M, info
     return None, None
 
 
@@ -650,10 +656,13 @@ class PlainLU(Family):
                 continue
             if want in ("zero", "singular") and size == 1 and want == "zero":
                 continue
-            M, info = gen_matrix(rng, size, want, pivoted=False)
+            M, info = gen_matrix(rng, size, want, pivoted=False, allow_scale=True)
             if M is None:
                 continue
-            out.append({"A": M, "b": rhs(rng, size), "info": info})
+            b = rhs(rng, size)
+            if "scale" in info:
+                b = [[float(x) * info["scale"] for x in row] for row in b]     # the solution keeps its ordinary magnitude
+            out.append({"A": M, "b": b, "info": info})
         return out
 
     def impl(self, c):
